@@ -411,7 +411,12 @@ func (t *Teddy) FindMatch(haystack []byte, start int) (int, int) {
 
 	// Process candidates
 	for pos != -1 {
-		// Iterate through all set bits in bucket mask (like Rust's verify64)
+		// Iterate through all set bits in bucket mask (like Rust's verify64).
+		// Several patterns may match at this position (e.g. "aqaa" and "aqa").
+		// Buckets are not in pattern order, so check every candidate bucket and
+		// keep the lowest pattern ID: leftmost-first semantics prefer the
+		// earliest alternative.
+		bestID := -1
 		for bucketMask != 0 {
 			// Find lowest set bit (bucket ID)
 			bucket := bits.TrailingZeros8(bucketMask)
@@ -419,12 +424,16 @@ func (t *Teddy) FindMatch(haystack []byte, start int) (int, int) {
 
 			// Verify patterns in this specific bucket
 			matchPos, patternID := t.verifyBucket(haystack[accumulatedOffset:], pos, bucket)
-			if matchPos != -1 && patternID >= 0 && patternID < len(t.patterns) {
-				// Match found! Return absolute start and end
-				matchStart := start + accumulatedOffset + matchPos
-				matchEnd := matchStart + len(t.patterns[patternID])
-				return matchStart, matchEnd
+			if matchPos != -1 && patternID >= 0 && patternID < len(t.patterns) &&
+				(bestID == -1 || patternID < bestID) {
+				bestID = patternID
 			}
+		}
+		if bestID != -1 {
+			// Match found! Return absolute start and end
+			matchStart := start + accumulatedOffset + pos
+			matchEnd := matchStart + len(t.patterns[bestID])
+			return matchStart, matchEnd
 		}
 
 		// No match at this candidate in any bucket, continue searching
